@@ -203,7 +203,17 @@ def _nx_import(klass, ref, seed, bad, bad_exc, ctx):
                  B.right_order(), got, want))
     else:
         N = networkx.DiGraph() if ref.kind == "digraph" else networkx.Graph()
-        nodes = list(range(1, ref.n + 1))
+        # the labels of the networkx graph are the caller's: any sortable
+        # labelling is renumbered 1..n in sorted order
+        labelling = rr.choice(["int", "int", "float", "gap", "negative",
+                               "str", "mixed", "fraction"])
+        lab = {"int": lambda v: v, "float": float,
+               "gap": lambda v: 3 * v + 7,
+               "negative": lambda v: v - ref.n - 5,
+               "str": lambda v: "v%04d" % v,
+               "mixed": lambda v: float(v) if v % 2 else v,
+               "fraction": lambda v: v + 0.5}[labelling]
+        nodes = [lab(v) for v in range(1, ref.n + 1)]
         rr.shuffle(nodes)
         N.add_nodes_from(nodes)
         es = list(E)
@@ -211,7 +221,8 @@ def _nx_import(klass, ref, seed, bad, bad_exc, ctx):
         for a, b in es:
             if ref.kind == "simple" and rr.random() < 0.5:
                 a, b = b, a
-            N.add_edge(a, b)
+            N.add_edge(lab(a), lab(b))
+        ctx.probe("networkx import, labels: " + labelling)
         r = call(klass.from_networkx, N)
         if r[0] == "exc":
             bad_exc("from_networkx-any-node-order", r[1])
